@@ -688,6 +688,8 @@ def c15(tier, seed):
     # with reclaim-on-free (frees of blocks of terminated threads may adopt their segments)
     cases += seq_cases(prop, "arena", ["rel", "dbg"], tier_n(tier, 8, 100), tier_n(tier, 2500, 6000), seed, env={"MIMALLOC_ABANDONED_RECLAIM_ON_FREE": "1"}, label_prefix="rof-", start_index=30000)
     cases += seq_cases(prop, "arena", ["rel"], tier_n(tier, 4, 50), tier_n(tier, 2500, 6000), seed, env={"MIMALLOC_TARGET_SEGMENTS_PER_THREAD": "2", "MIMALLOC_VISIT_ABANDONED": "1"}, extra_args=["--abandon-ok", 1], label_prefix="tgt-", start_index=40000)
+    # "do not use arenas (except for heaps bound to a specific arena)": the bound heaps must work all the same
+    cases += seq_cases(prop, "arena", ["rel", "dbg"], tier_n(tier, 4, 50), tier_n(tier, 2500, 6000), seed, env={"MIMALLOC_DISALLOW_ARENA_ALLOC": "1"}, label_prefix="noarena-", start_index=50000)
     v = Verdict(prop)
     for c in core.run_cases(cases): v.add(c)
     cov = seq_cov(cases)
